@@ -370,25 +370,39 @@ def cycleRule : Rule where
 
 /-! ## phase 4b: the redefinition scan -/
 
-/-- scopes scanned by `check_for_redefinitions`: all definitions (by scoped name), the fields of each struct, the
-    operations of each interface, the parameters and the return members of each operation, the enumerators of
-    each enum, the fields of each enumerator -/
-def nameScopes (P : Program) : List (List String) :=
-  [(allDefs P).map defKey] ++
-  (allDefs P).flatMap fun sd =>
+/-- every module a program declares, with the enclosing modules a nested declaration declares as well (`module A::B::C` declares
+    `A`, `A::B` and `A::B::C`): `check_for_redefinitions` enters them into its map before it looks at any definition -/
+def pathPrefixes : List Char → List Char → List (List Char)
+  | acc, [] => [acc.reverse]
+  | acc, ':' :: ':' :: r => acc.reverse :: pathPrefixes (':' :: ':' :: acc) r
+  | acc, c :: r => pathPrefixes (c :: acc) r
+
+def modulePrefixes (P : Program) : List String :=
+  P.flatMap fun f =>
+    match f.module with
+    | none => []
+    | some m => (pathPrefixes [] m.path.toList).map String.ofList
+
+/-- scopes scanned by `check_for_redefinitions`, each with the names that are taken before the scan starts: all definitions (by
+    scoped name; the module names are taken — a definition may not share its fully-scoped name with a module), the fields of each
+    struct, the operations of each interface, the parameters and the return members of each operation, the enumerators of each enum,
+    the fields of each enumerator -/
+def nameScopes (P : Program) : List (List String × List String) :=
+  [(modulePrefixes P, (allDefs P).map defKey)] ++
+  ((allDefs P).flatMap fun sd =>
     match sd.2 with
     | .struct _ _ _ _ fields => [fields.map (·.name)]
     | .iface _ _ _ _ ops => [ops.map (·.name)] ++ ops.flatMap fun o => [o.params.map (·.name), (retParams o.ret).map (·.name)]
     | .enum _ _ _ _ _ _ es => [es.map (·.name)] ++ es.map (fun e => (e.fields.getD []).map (·.name))
-    | _ => []
+    | _ => []).map fun names => ([], names)
 
 def namesRule : Rule where
   name := "names unique within their scope"
-  κ := List String
+  κ := List String × List String
   ctxs := nameScopes
-  check := fun names => (repeats [] names).map fun _ => code "Redefinition"
+  check := fun c => (repeats c.1 c.2).map fun _ => code "Redefinition"
   kinds := ["Redefinition"]
-  Spec := fun names => names.Nodup
+  Spec := fun c => c.2.Nodup ∧ ∀ x ∈ c.2, x ∉ c.1
   dec := fun _ => inferInstance
 
 /-! ## phase 4c: the visitor rules -/
